@@ -156,6 +156,10 @@ func colorMain(args []string) error {
 		}
 		d := make([]int, len(pv))
 		for i, q := range pv {
+			if q < 0 { // not a colour: no distance
+				d[i] = -1
+				continue
+			}
 			d[i] = int(lab.Dist(cv, q)*1e6 + 0.5)
 		}
 		emit(trace.Ev{"ev": "Find", "kind": kind, "c": cv, "pal": pv, "idx": idx, "d": d, "isdefault": res == tcell.ColorDefault})
@@ -221,6 +225,26 @@ func colorMain(args []string) error {
 		find("palettecolour", c, cv, pal, pv)
 	}
 	find("empty", tcell.NewHexColor(0x123456), 0x123456, []tcell.Color{}, []int{})
+	// palettes with members that are not valid colours (ColorReset, ColorNone, RGB bits without the valid flag):
+	// the answer is still a member; such a member is never "closer" (its distance is logged as -1)
+	specials := []tcell.Color{tcell.ColorReset, tcell.ColorNone, tcell.ColorIsRGB | 0x102030, tcell.ColorSpecial | 7}
+	for i := 0; i < 40; i++ {
+		var pal []tcell.Color
+		var pv []int
+		for j := 0; j < 1+rng.Intn(4); j++ {
+			pal, pv = append(pal, specials[rng.Intn(len(specials))]), append(pv, -1)
+		}
+		if i%2 == 0 { // mixed with valid ones
+			for j := 0; j < 1+rng.Intn(3); j++ {
+				v := rng.Intn(1 << 24)
+				at := rng.Intn(len(pal) + 1)
+				pal = append(pal[:at:at], append([]tcell.Color{tcell.NewHexColor(int32(v))}, pal[at:]...)...)
+				pv = append(pv[:at:at], append([]int{v}, pv[at:]...)...)
+			}
+		}
+		v := []int{0, 0x010101, 0xffffff, rng.Intn(1 << 24)}[rng.Intn(4)]
+		find("withinvalid", tcell.NewHexColor(int32(v)), v, pal, pv)
+	}
 	// FromImageColor on opaque colours with 16-bit channels: the 8-bit value of a channel is its high byte, as the
 	// image/color models convert (a tcell colour holds 8 bits per channel)
 	for i := 0; i < 600; i++ {
